@@ -657,6 +657,33 @@ func init() {
 					}
 				}
 			}
+			if sc.v1ok() && sc.child() < w.net.HardforkFoundation.Height {
+				// before the Foundation exists its addresses are nobody's to set: whatever
+				// a transaction's arbitrary data says, the block leaves them alone (the
+				// first subsidy, at the hardfork height, goes where the network says)
+				if e, ok := pickSC(w, sc.ownedSC(true, true)); ok {
+					if t, ok := w.spendV1(sc.s, []types.SiacoinElement{e}, w.wallets[0].addrs[0].addr); ok {
+						var buf []byte
+						buf = append(buf, types.SpecifierFoundation[:]...)
+						a1, a2 := w.wallets[0].addrs[1].addr, newAddr
+						buf = append(buf, a1[:]...)
+						buf = append(buf, a2[:]...)
+						t.ArbitraryData = [][]byte{buf}
+						w.signAllV1(sc.s, &t)
+						before := [2]types.Address{sc.s.FoundationSubsidyAddress, sc.s.FoundationManagementAddress}
+						gap := w.net.HardforkFoundation.Height - sc.child()
+						sc.offer([]types.Transaction{t}, nil, offerOpt{onApply: func(ns consensus.State) {
+							if after := [2]types.Address{ns.FoundationSubsidyAddress, ns.FoundationManagementAddress}; after != before {
+								w.violate("C03", "probe-A5-v1-update-before-the-foundation", fmt.Sprintf("row A5: a transaction nobody of the Foundation signed, %d block(s) before the Foundation hardfork height, changed the Foundation addresses from %v to %v", gap, before, after))
+							}
+							w.stats.Inc("probe.A5-v1-update-before-the-foundation")
+							if gap == 1 {
+								w.stats.Inc("probe.A5-v1-update-one-block-before-the-foundation")
+							}
+						}})
+					}
+				}
+			}
 			if sc.v1ok() && sc.child() >= w.net.HardforkFoundation.Height {
 				var fnd, other *types.SiacoinElement
 				for _, e := range sc.ownedSC(true, true) {
